@@ -173,7 +173,9 @@ def rule_r2(chk, db):
                 "the error's headers do not all reach the response" + (" (copied with HeaderMap::insert: multi-valued headers collapse to one value)" if lossy is not None else " (res.headers <- take_headers())"))
     # body <- set_xml_body(res, &e) / no_decl variant selected by the flag
     setters = {short(callee_def(t)): bi for bi, t in b.calls() if callee_def(t).startswith("s3s::http::ser::set_xml_body")}
-    chk.verdict(set(setters) == {"set_xml_body", "set_xml_body_no_decl"}, "R2", "body", b.loc(), "serialize_error must render through set_xml_body / set_xml_body_no_decl (found %s)" % sorted(setters))
+    # (the setter pair may be one function taking the declaration mode; which mode is used when is decided by C03.R4)
+    chk.verdict(bool(setters) and all(x.startswith("set_xml_body") for x in setters), "R2", "body", b.loc(),
+                "serialize_error must render the error document through the XML body setters of http::ser (found %s)" % sorted(setters))
     # S3Error::status_code: explicit override first, table second
     sc = db.body("s3s::error::S3Error::status_code")
     if sc is None:
